@@ -278,8 +278,12 @@ class SpecMixin:
                 sorts.append(Val)
                 raws.append(self.to_val(a))
         rs = {"int": core.IntS, "str": core.StrS, "bool": core.BoolS}.get(sf.ret, Val)
-        f = z3.Function("spec_" + sf.name, *sorts, rs)
-        t = f(*raws)
+        hargs = []
+        if sf.heap:
+            for hf in ("fld", "has"):
+                hargs.append(self.heap.cur[hf])
+        f = z3.Function("spec_" + sf.name, *[x.sort() for x in hargs], *sorts, rs)
+        t = f(*hargs, *raws)
         rk = sf.ret if sf.ret in ("int", "str", "bool") else "val"
         res = TV(rk, t, None if rk != "val" else (sf.ret if sf.ret not in ("any", "val") else None))
         depth = getattr(self, "_unfold_depth", 0)
@@ -299,6 +303,8 @@ class SpecMixin:
                 else:
                     eq = t == self.to_val(d)
                 self.spec_side.append(eq)
+                for ftxt in sf.facts:
+                    self.spec_side.append(self.truthy(self.eval(parse_expr(ftxt), fr)))
             finally:
                 self._unfold_depth = depth
         return res
